@@ -136,6 +136,8 @@ def scenarios(ctx):
         out.append(Scn("notchunked/l%d.rand" % li, streams.recut(whole, "rand", rnd), cfg, (), exp))
     # accounting on arbitrary input (no expectations): corpus and mutants
     out += gens.corpus(ctx.seed, q, modes=("orig", "rand"), nrand=1 if q else 6, mutants=2 if q else 10)
+    # ... and stream gaps: the bytes of a gap inside an identity body count as delivered (NULL data with a length)
+    out += gens.gaps(ctx.seed, q)
     return out
 
 
